@@ -508,6 +508,9 @@ class Hdf5Saver:
             return h5gr
 
         disp = self.dispatch_save.get(type(obj))
+        if disp is None and isinstance(obj, type):
+            # a class whose metaclass is not `type` itself (e.g. abstract base classes): still a (global) class
+            disp = self.dispatch_save[type]
         if disp is not None:
             f, type_repr = disp
             # `f` is a dispatcher function, which should
